@@ -3,7 +3,7 @@
    announcement over the old channel record gives the new one) is checked on every run by the
    correspondence oracle, not proved here: see DESIGN.md section 5 (C08). *)
 From IRC Require Import Str Wild Glob Mask Parse Reply State Handlers Step.
-From IRCP Require Import InvDefs ModeP AnnounceP SettingsFrame SettingsGlobal.
+From IRCP Require Import InvDefs ModeP AnnounceP SettingsFrame SettingsGlobal RankFrame RankGlobal.
 From stdpp Require Import gmap.
 
 Section C08.
@@ -174,6 +174,18 @@ Theorem C08_other_commands_keep_settings : forall cfg verify i s c cmd msg r,
   forall ch co co', chans s !! ch = Some co -> chans (h_sh r) !! ch = Some co' -> csettings (ch_modes co') = csettings (ch_modes co).
 Proof. exact dispatch_settings. Qed.
 
+(* ... AND MEMBER RANKS: a user who is a member of a channel before and after a step - under the same nick - holds the same
+   five rank flags unless the event is a registered connection's MODE line naming that channel.  Nobody's JOIN, PART, KICK,
+   NICK, TOPIC, INVITE or session end changes the rank of a member who stays. *)
+Theorem C08_ranks_change_only_by_mode : forall cfg verify w i e w' o cl,
+  Inv w -> step cfg verify w i e = Ok (w', o, cl) ->
+  forall ch co co' n r1 r2, chans (sh w) !! ch = Some co -> chans (sh w') !! ch = Some co' ->
+  ch_users co !! n = Some r1 -> ch_users co' !! n = Some r2 ->
+  r2 = r1 \/
+  exists c l, conns w !! i = Some c /\ e = EvLine l /\ c_auth c = true /\
+              exists msg modes, tokenize l = inl msg /\ command_of_message msg = inl (MODE ch modes).
+Proof. exact ranks_change_only_by_mode. Qed.
+
 Print Assumptions C08_outsider.
 Print Assumptions C08_flags_as_announced.
 Print Assumptions C08_announcement_text.
@@ -190,3 +202,4 @@ Print Assumptions C08_key_announced.
 Print Assumptions C08_limit_announced.
 Print Assumptions C08_settings_change_only_by_mode.
 Print Assumptions C08_other_commands_keep_settings.
+Print Assumptions C08_ranks_change_only_by_mode.
